@@ -234,6 +234,7 @@ def check_circle(ctx: Ctx, inst: dict, rng: random.Random) -> None:
     import numpy as np
 
     point, vector, scale = similarity(rng)
+    inst = dict(inst, p2=[c + x / inst["den"] for c, x in zip(inst["centre"], inst["p2lin"])])
     R = inst["R"] * inst["flen"] * scale
     centre, p1 = point(inst["centre"]), point(inst["p1"])
     normal = vmul(vector(inst["axis"]), rng.uniform(0.5, 3))
@@ -281,6 +282,25 @@ def check_circle(ctx: Ctx, inst: dict, rng: random.Random) -> None:
                 if abs(got - t) > 1e-4:
                     ctx.violation(f"custom-bounds:closest-param:{name}:{'negative' if t < 0 else 'positive'}",
                                   f"{name} curve on bounds {curve.bounds}: the point at parameter {t} is reported closest to {got}", rep)
+            # a stretch given by two parameters is that stretch - whatever the parameters are (0 is a parameter like any other
+            # on these bounds, given as an int, a float or a numpy number): its ends are the points at the two parameters, its
+            # length is exact (arc, line) and adds up over a split
+            lo, hi = curve.bounds
+            for ta, tb in ((0, ts[-1]), (ts[0], 0.0), (np.float64(0.0), hi), (lo, np.int64(0)), (ts[1], ts[-1]), (None, 0), (0, None)):
+                ctx.evaluated()
+                fa, fb = (lo if ta is None else float(ta)), (hi if tb is None else float(tb))
+                disc = curve.discretize(ta, tb, 9)
+                ends = vdist(disc[0], curve.get_point(fa)) + vdist(disc[-1], curve.get_point(fb))
+                whole, tm = curve.get_length(ta, tb), 0.5 * (fa + fb) + 0.1
+                parts = curve.get_length(ta, tm) + curve.get_length(tm, tb)
+                exact = {"arc": R * abs(fb - fa), "line": vdist(a0, a1) * abs(fb - fa)}.get(name)
+                zero = "zero" if 0 in (ta, tb) else "nonzero"
+                if ends > 1e-8 * R:
+                    ctx.violation(f"custom-bounds:discretize-ends:{name}:{zero}", f"{name} curve on bounds {curve.bounds}: discretize({ta}, {tb}) "
+                                  f"does not run from the point at {fa} to the point at {fb}", rep)
+                if abs(whole - parts) > 1e-3 * max(whole, parts) or (exact is not None and abs(whole - exact) > 2e-4 * exact):
+                    ctx.violation(f"custom-bounds:length:{name}:{zero}", f"{name} curve on bounds {curve.bounds}: get_length({ta}, {tb}) = {whole}, "
+                                  f"its two halves {parts}, exact {exact}", rep)
     except Exception as err:  # pylint: disable=broad-except
         ctx.violation(f"raises:custom-bounds:{type(err).__name__}", str(err), rep)
     # line
@@ -314,7 +334,7 @@ def run(ctx: Ctx) -> None:
         check_polyline(ctx, inst, rng)
         ctx.validated()
     ctx.sample({"points": take[0]["points"], "cum": take[0]["cum"]})
-    arc = run_tlc("Arc", "arc.cfg", cfg_text=cfg_text("Spec", {"Radii": "{5}", "FrameIdx": "{1, 2}", "CentreIdx": "{2}"}, ["MidOK"], constraints=["Emit"]),
+    arc = run_tlc("Arc", "arc.cfg", cfg_text=cfg_text("Spec", {"Radii": "{5}", "WideRadii": "{}", "FrameIdx": "{1, 2}", "CentreIdx": "{2}"}, ["MidOK"], constraints=["Emit"]),
                   workers=1, timeout=600)
     ctx.add_tlc(arc)
     for inst in rng.sample(arc.records, min(len(arc.records), 40 if ctx.tier == "quick" else 112)):
